@@ -66,7 +66,7 @@ from ..docstrings import (
 )
 from ..iodata import IOData
 from ..periodic import num2sym, sym2num
-from ..utils import LineIterator, angstrom
+from ..utils import LineIterator, LoadError, angstrom
 
 __all__ = ()
 
@@ -147,16 +147,20 @@ def load_many(lit: LineIterator, atom_columns=None) -> Iterator[dict]:
     """Do not edit this docstring. It will be overwritten."""
     # XYZ Trajectory files are a simple concatenation of individual XYZ files,'
     # making it trivial to load many frames.
-    try:
-        while True:
-            # Check for and skip empty lines at the end of file
+    while True:
+        # Skip empty lines. When only empty lines are left, the end of the file is reached.
+        try:
             line = next(lit)
-            if line.strip() == "":
-                return
-            lit.back(line)
-            yield load_one(lit, atom_columns)
-    except StopIteration:
-        return
+            while line.strip() == "":
+                line = next(lit)
+        except StopIteration:
+            return
+        lit.back(line)
+        try:
+            data = load_one(lit, atom_columns)
+        except StopIteration as exc:
+            raise LoadError("File ended in the middle of a frame.", lit) from exc
+        yield data
 
 
 @document_dump_one("XYZ", ["atcoords", "atnums"], ["title"], {"atom_columns": ATOM_COLUMNS_DOC})
